@@ -168,9 +168,11 @@ def r10_1(ctx):
             raise AnchorVanished(f"{spec}._enable/_disable_redirect_io not found")
         saved: Dict[str, str] = {}  # stream -> slot
         replaced = set()
+        from ..astutil import inline as _inl101, single_defs as _sdf101
+        sd_en, sd_dis = _sdf101(en.node), _sdf101(dis.node)
         for n in walk_local(en.node):
             if isinstance(n, ast.Assign) and len(n.targets) == 1:
-                t, v = n.targets[0], n.value
+                t, v = n.targets[0], _inl101(n.value, sd_en)
                 if is_attr_of(t, "self") and isinstance(v, ast.Attribute) and is_attr_of(v, "sys"):
                     saved[v.attr] = t.attr
                 if is_attr_of(t, "sys") and isinstance(v, ast.Call):
@@ -181,7 +183,7 @@ def r10_1(ctx):
         cleared = set()
         for n in walk_local(dis.node):
             if isinstance(n, ast.Assign) and len(n.targets) == 1:
-                t, v = n.targets[0], n.value
+                t, v = n.targets[0], _inl101(n.value, sd_dis)
                 if is_attr_of(t, "sys") and is_attr_of(v, "self"):
                     restored[t.attr] = v.attr
                 if is_attr_of(t, "self") and isinstance(v, ast.Constant) and v.value is None:
